@@ -7,13 +7,19 @@ import (
 	"github.com/ThreeDotsLabs/watermill"
 	"github.com/ThreeDotsLabs/watermill/components/fanin"
 	"github.com/ThreeDotsLabs/watermill/components/requeuer"
+	"github.com/ThreeDotsLabs/watermill/message"
 
 	"verifharness/vlib"
 )
 
-func runFanIn(e *vlib.Env) vlib.Result {
+func runFanIn(e *vlib.Env) vlib.Result { return runFanInOpt(e, false) }
+
+func runFanInOpt(e *vlib.Env, conc bool) vlib.Result {
 	r := e.R
 	res := vlib.Result{Class: "fanin"}
+	if conc {
+		res.Class = "concurrent/fanin"
+	}
 	ctl := vlib.NewCtl(r.Uint64(), 0.15, 30)
 	defer ctl.Uninstall()
 
@@ -25,9 +31,14 @@ func runFanIn(e *vlib.Env) vlib.Result {
 	var msgs []*relayMsg
 	byTopic := map[string][]*relayMsg{}
 	n := r.Range(3, 12)
+	if conc {
+		n = r.Range(4, 14)
+	}
 	edge := nSrc >= 2
+	o := &odd{}
 	for i := 0; i < n; i++ {
 		m := genMsg(e, i, true)
+		o.uuid(r, m)
 		// a foreign retries counter must pass through FanIn untouched
 		if r.Chance(0.25) {
 			if v, present, _ := retriesValue(r); present {
@@ -37,13 +48,30 @@ func runFanIn(e *vlib.Env) vlib.Result {
 		t := srcTopics[r.Intn(nSrc)]
 		rm := &relayMsg{No: i, Kind: "relay", SrcTopic: t, Orig: m, Valid: true, WantTopic: target, Want: vlib.Snap(m)}
 		rm.Plan, rm.MaxRedeliver = genPlan(r)
+		if r.Chance(0.05) {
+			rm.NilMeta = true // the subscriber built the message without the constructor
+			rm.Want.Metadata = map[string]string{}
+			o.nilM++
+		}
 		msgs = append(msgs, rm)
 		byTopic[t] = append(byTopic[t], rm)
 	}
 
 	mon := newMonitor(false)
 	src := &vlib.Sub{Name: e.ID() + ".src"}
-	dst := &vlib.Pub{Name: e.ID() + ".dst", OnPublish: mon.onPublish, Script: mon.script}
+	rec := &vlib.Pub{Name: e.ID() + ".dst", OnPublish: mon.onPublish, Script: mon.script}
+	var dst message.Publisher = rec
+	var co *concOpts
+	if conc {
+		// the gate sits in the destination publisher (it reads its arguments late) or between the handler's return
+		// and the Router's publishing of what it returned (hook router.handle.before_publish)
+		co = newConc(r, r.Range(2, 4), []string{"publisher", "publisher", "hook"}[r.Intn(3)])
+		if co.via == "publisher" {
+			dst = &gatedPub{inner: rec, g: co.gate}
+		} else {
+			ctl.Observe(co.hook)
+		}
+	}
 	var logger watermill.LoggerAdapter = watermill.NopLogger{}
 	if r.Chance(0.2) {
 		logger = nil // documented: a nil logger is replaced by NopLogger
@@ -54,13 +82,23 @@ func runFanIn(e *vlib.Env) vlib.Result {
 		return res
 	}
 	comp := component{name: "FanIn", run: func() error { return fi.Run(context.Background()) }, running: func() bool { return vlib.IsClosed(fi.Running()) }, stop: func() { fi.Close() }}
-	drive(&res, comp, src, mon, srcTopics, byTopic)
+	drive(&res, comp, src, mon, srcTopics, byTopic, co)
 	st := mon.judge(&res, msgs, judgeCfg{component: "FanIn"})
-	fill(&res, st, mon, msgs, edge)
+	fill(&res, st, mon, msgs, edge || o.any())
+	o.count(&res)
 	res.Count("source_topics", nSrc)
 	res.Sig = vlib.Sig("fanin", nSrc, closeTimeout, logger == nil, shapeSig(msgs))
+	if conc {
+		co.count(&res)
+		res.NonTrivial = st.relayed > 0 && co.multiRelease > 0
+		res.Sig = vlib.Sig(res.Sig, co.sig())
+	}
 	res.Hooks = ctl.Counts()
 	res.Sample = map[string]any{"component": "FanIn", "config": map[string]any{"SourceTopics": srcTopics, "TargetTopic": target, "CloseTimeout": closeTimeout.String()}, "messages": msgTrace(msgs, 8)}
+	if conc {
+		res.Sample.(map[string]any)["in_flight_window_per_topic"] = co.window
+		res.Sample.(map[string]any)["gate"] = co.via
+	}
 	if res.Failed() && res.Witness == nil {
 		res.Witness = map[string]any{"messages": msgTrace(msgs, 100)}
 	}
